@@ -92,6 +92,53 @@ def klass_met(m):
 # --------------------------------------------------------------------------- C16
 
 
+def synthetic_generators(chk):
+    """ADVISORY (no listed property): spec/Synthetic.tla against bldfm/synthetic.py - the generators' output must be input the
+    configuration layer accepts: n distinct towers where the specification puts them, a forcing with exactly n steps.
+    Every disagreement is drift."""
+    import math
+
+    from bldfm.config_parser import parse_config_dict
+    from bldfm.synthetic import generate_synthetic_timeseries, generate_towers_grid
+
+    r = run_tlc("Synthetic", "MC_Synthetic", workers=4)
+    chk.add_tlc("MC_Synthetic", r)
+    if not r.ok:
+        raise MachineryError("MC_Synthetic: %s violated" % r.violated)
+    n = 0
+    lat0, lon0, sp = 50.95, 11.586, 500.0
+    for e in sorted(r.emitted, key=lambda x: json.dumps(x, sort_keys=True)):
+        try:
+            towers = generate_towers_grid(n_towers=e["n"], center_lat=lat0, center_lon=lon0, spacing_m=sp, layout=e["layout"])
+        except Exception as ex:
+            chk.drift_note("generate_towers_grid(%d, %s) raised %r" % (e["n"], e["layout"], ex))
+            continue
+        n += 1
+        if len(towers) != e["n"] or len({t["name"] for t in towers}) != len(towers):
+            chk.drift_note("generate_towers_grid(%d, %s) returned %d towers / %d distinct names" % (e["n"], e["layout"], len(towers), len({t["name"] for t in towers})))
+            continue
+        for t, off in zip(towers, e["offs"]):
+            dx = (t["lon"] - lon0) * 111_320.0 * math.cos(math.radians(lat0))
+            dy = (t["lat"] - lat0) * 111_320.0
+            if abs(dx - off[0] * sp / 2) > 0.2 or abs(dy - off[1] * sp / 2) > 0.2:
+                chk.drift_note("generate_towers_grid(%d, %s): tower %s at (%.1f, %.1f) m, the specification says (%.1f, %.1f)" % (e["n"], e["layout"], t["name"], dx, dy, off[0] * sp / 2, off[1] * sp / 2))
+                break
+        if e["n"] >= 1 and e["n"] % 5 == 1:
+            for k in (1, 2, 7):
+                met = generate_synthetic_timeseries(n_timesteps=k, seed=k)
+                raw = {"domain": {"nx": 8, "ny": 8, "xmax": 100.0, "ymax": 100.0, "nz": 4, "ref_lat": lat0, "ref_lon": lon0}, "towers": towers, "met": met}
+                try:
+                    cfg = parse_config_dict(raw)
+                    if cfg.met.n_timesteps != k or len(cfg.towers) != e["n"] or any(len(met[f]) != k for f in ("ustar", "mol", "wind_speed", "wind_dir", "timestamps")):
+                        chk.drift_note("synthetic series of %d steps parses to %d steps / %d towers" % (k, cfg.met.n_timesteps, len(cfg.towers)))
+                    if not all(0.0 <= w < 360.0 for w in met["wind_dir"]):
+                        chk.drift_note("synthetic wind directions outside [0, 360)")
+                except Exception as ex:
+                    chk.drift_note("synthetic towers + series are not accepted by the configuration layer: %r" % ex)
+                n += 1
+    return n
+
+
 def main_met():
     import bldfm
     from bldfm.config_parser import MetConfig, parse_config_dict
@@ -194,6 +241,7 @@ def main_met():
     chk.traces = n_runs
     chk.extra["driver_runs"] = n_runs
     chk.extra["exhaustive"] = True
+    chk.extra["synthetic_generator_cases"] = synthetic_generators(chk)
     for e in r.emitted[:: max(1, len(r.emitted) // 5)][:5]:
         chk.sample({"forcing": met_dict(e["m"]), "valid": e["valid_spec"], "nsteps": e["nsteps"], "steps": e["log"]})
     chk.assumptions.append("token instantiation is injective (distinct floats per field and index); comparisons are exact")
